@@ -11,12 +11,19 @@ E1_RACE = {"name": "e1-race", "engine": "e1", "harness": ["resource.cc", "thread
 
 E1_THREAD = {"name": "e1-thread", "engine": "e1", "harness": ["thread.cc"], "repo_src": ["src/threading/Thread.cpp", "src/threading/Runnable.cpp"]}
 
+E2_RING = {"name": "e2-ringbuffer", "engine": "e2", "harness": ["ringbuffer.cc"], "repo_src": []}
+
+E2_ARRAY = {"name": "e2-array", "engine": "e2", "harness": ["array.cc"], "repo_src": []}
+
 MC = "model_checking"
 
 CHECKS = {
     "C01": {"level": MC, "runs": [{"binary": E1_RESOURCE, "flavour": "plain"}, {"binary": E1_RESOURCE, "flavour": "asan", "args": ["--max-bound", "2"], "tiers": ["thorough"]}]},
     "C02": {"level": MC, "runs": [{"binary": E1_RESOURCE, "flavour": "plain"}]},
     "C03": {"level": MC, "runs": [{"binary": E1_RESOURCE, "flavour": "plain"}]},
+    "C04": {"level": MC, "runs": [{"binary": E2_RING, "flavour": "asanub"}]},
+    "C09": {"level": MC, "runs": [{"binary": E2_RING, "flavour": "asanub"}]},
+    "C14": {"level": MC, "runs": [{"binary": E2_ARRAY, "flavour": "asanub"}]},
     "C07": {"level": MC, "runs": [{"binary": E1_POOL, "flavour": "plain"}, {"binary": E1_POOL, "flavour": "asan", "args": ["--max-bound", "1"]}]},
     "C08": {"level": MC, "runs": [{"binary": E1_POOL, "flavour": "plain"}]},
     "C15": {"level": MC, "runs": [{"binary": E1_RACE, "flavour": "tsan"}]},
@@ -25,9 +32,15 @@ CHECKS = {
     "C12": {"level": MC, "runs": [{"binary": E1_RESOURCE, "flavour": "plain"}]},
 }
 
+_E2_NOTE = ("Trusted: the reference model (a few lines of std:: containers in the harness), AddressSanitizer/UBSan for the memory-safety half, the canonical state key read from the implementation's own fields "
+            "(merging is only done where the implementation is in the same state); bounds as stated in the evidence.")
+
 ENGINES = [
     {"name": "vsched", "path": "engine/vsched.c engine/explore.cc", "serves_properties": ["C01", "C02", "C03", "C07", "C08", "C11", "C12", "C15", "C20"],
      "kind_free_text": "stateless model checking of the real implementation: cooperative scheduler interposed on pthread mutex/condvar/create/join + clock, depth-first enumeration of every schedule up to a preemption bound, forked workers, replay-confirmed violations"},
+    {"name": "seqx", "path": "harness/seqx.h", "serves_properties": ["C04", "C05", "C06", "C09", "C10", "C13", "C14", "C16", "C17", "C18", "C19"],
+     "kind_free_text": "explicit-state / bounded-exhaustive exploration of sequential code: operation histories replayed on fresh real objects, breadth-first to fixpoint over canonical implementation-state keys (or complete enumeration to a stated bound), "
+                       "step-by-step comparison with a reference model, forked exploration under ASan/UBSan with the history in flight kept in shared memory"},
 ]
 
 _E1_NOTE = ("Trusted: the interposed scheduler (engine/vsched.c) models pthread mutex/condvar semantics faithfully; sequential consistency at synchronisation-step granularity "
@@ -45,6 +58,23 @@ META = {
     "C03": {"engine": "vsched", "design_ref": "DESIGN.md §4 C03", "technique": "stateless model checking of the implementation: exhaustive preemption-bounded schedule enumeration, FIFO oracle over the event log",
             "text": "Same programs as C02. Oracle over the totally ordered event log of each schedule: for requests A,B that are not both reads, if A was parked inside lock*() before B was issued then A is granted before B.",
             "note": _E1_NOTE},
+    "C04": {"engine": "seqx", "design_ref": "DESIGN.md §4 C04", "technique": "explicit-state model checking of the implementation: breadth-first search over operation histories to fixpoint, compared with a bounded std::deque",
+            "text": "Breadth-first search to fixpoint over the (overwrite, capacity, head, size) layouts of the real RingBuffer<int> for capacities 1..5 (thorough 1..7): every operation (push/emplace/pop at both ends, resize to every capacity, copy, move, self/copy/move assignment) "
+                    "is applied in every reachable layout and the whole public API (size, capacity, [], both iterator kinds with arithmetic, front/back, return values, operator== across overwrite modes) is compared with a capacity-bounded std::deque; "
+                    "plus every history to depth 4 (thorough 6) without state merging. Runs under ASan+UBSan with assertions on.",
+            "note": _E2_NOTE},
+    "C09": {"engine": "seqx", "design_ref": "DESIGN.md §4 C09", "technique": "explicit-state model checking of the implementation with a lifetime-tracking element type under AddressSanitizer",
+            "text": "The C04 search with a bitwise-relocatable element type whose objects carry serial numbers: a registry knows for every object whether it holds a value, is a moved-from shell or was destroyed. After every transition the values held by "
+                    "live objects must be exactly the logical contents; destructors on raw storage, double destruction, reads of destroyed elements and values abandoned at container death are violations; the state key includes the status of every physical slot.",
+            "note": _E2_NOTE},
+    "C14": {"engine": "seqx", "design_ref": "DESIGN.md §4 C14", "technique": "explicit-state model checking of the implementation: breadth-first search over construction paths and operation histories, std::vector model, lifetime-tracking elements, ASan",
+            "text": "From every construction path (pointer+length, initializer list, size, size+fill, default, adopted storage) x length 0..3 (thorough 0..4), for int and a lifetime-tracked class type, breadth-first to fixpoint with copy (incl. write-through test), "
+                    "move, copy-/move-assign, swap, resize(n), resize(n,v), writes, self-assignment; contents, sizes, iteration and the set of live element objects are compared with std::vector models after every step; plus all histories to depth 3 (thorough 4).",
+            "note": _E2_NOTE},
+    "C11": {"engine": "vsched", "design_ref": "DESIGN.md §4 C11", "technique": "stateless model checking of the implementation: exhaustive preemption-bounded schedule enumeration, brute-force linearizability check of every recorded history against the sequential router",
+            "text": "2-4 threads with one or two router operations each (notify with wildcard/regex/concrete patterns, subscribe, USubscription::unsubscribe, shrink, exists, depth) collide on the same keys of a pre-populated ConcurrentSubjectRouter; callbacks contain scheduling points. "
+                    "For every schedule within the bound the recorded results (callbacks made per notify, return values) must be explained by some sequential order consistent with the call/return order; no callback after unsubscribe() returned; ASan flavour for use-after-free.",
+            "note": _E1_NOTE + " The sequential SubjectRouter is the reference for linearizability (its own behaviour is decided by C06/C13)."},
     "C07": {"engine": "vsched", "design_ref": "DESIGN.md §4 C07", "technique": "stateless model checking of the implementation: exhaustive preemption-bounded schedule enumeration, task life-cycle oracle over the event log",
             "text": "Every schedule (owner + workers, every notify_one target) with <= c preemptions of owner scripts over start/clear/stop/wait with 1-4 instrumented tasks and 1-3 workers runs on the real ThreadPool, plain and under AddressSanitizer. "
                     "Per task: run at most once, destroyed exactly once and never before/during run; run exactly once unless cleared/stopped first (a lost task deadlocks the owner's wait); nothing runs after stop() returned; one worker runs in submission order.",
